@@ -5,7 +5,7 @@ import sys
 wt = sys.argv[1]; area = " ".join(sys.argv[2:])
 print(f"""You are a maintainer of the Rust project garnish-lang/garnish-core (the Garnish scripting language core: lexer, parser, bytecode builder, stack-based runtime over a pluggable data trait, two data implementations SimpleGarnishData and BasicGarnishData).
 
-Your own scratch git worktree of the repository is at {wt} . Work ONLY inside it (never touch /repo or /verif, never read /verif). There is no network; use `cargo ... --offline`. The workspace builds and its test suite passes: `cd {wt} && cargo test --workspace --no-fail-fast --offline` (about 1500 tests).
+Your own scratch git worktree of the repository is at {wt} . Work ONLY inside it (never touch /repo or /verif, never read /verif). There is no network; use `cargo ... --offline`. The workspace builds; run its test suite with `cd {wt} && cargo test --workspace --no-fail-fast --offline`: about 1500 tests pass and 39 tests (runtime mock tests hitting unimplemented!() stubs, one simple_data iterator test, 11 in tests/tests) ALREADY FAIL on the clean checkout - 'the test suite still passes' below means: the set of passing tests is unchanged (no test that passes on the clean checkout fails with your change).
 
 YOUR TASK: make a realistic, moderately sized BEHAVIOUR-PRESERVING clean-up / refactor of this area of the NON-TEST source:
 
@@ -24,6 +24,6 @@ The observable behaviour of every public function must stay IDENTICAL for every 
 Do NOT change public API signatures, public names, error messages/codes, or test code. Do NOT fix bugs, do NOT add or remove checks/guards/bounds tests, do NOT change arithmetic (keep checked/overflowing/saturating operations and raw operators exactly as they are), do NOT change which trait methods are called or in what order. If you are not sure an edit is behaviour-preserving, do not make it.
 
 DELIVERABLES under {wt}/SEED/ (create it; it is not part of the change):
-  * SEED/patch.diff - `git diff` of your change (must apply with `git apply` to a clean checkout; must not include SEED/). Leave the change applied in the worktree.
+  * SEED/patch.diff - `git diff` of your change (must apply with `git apply` to a clean checkout; must not include SEED/). Leave the change applied in the worktree. NEVER use `git stash` (it is shared with other worktrees of this repository); to compare with the clean checkout use `git diff > /tmp/my.diff; git apply -R /tmp/my.diff; ...; git apply /tmp/my.diff`.
   * SEED/notes.md   - a numbered list of every edit you made (file, function, what kind of edit, one line on why it preserves behaviour), and the result of the full test suite with the change (must be all passing - run it).
 In your final message give a short summary (number of edits by kind, lines changed, test result).""")
